@@ -406,3 +406,7 @@ mod tests {
         }
     }
 }
+
+#[cfg(any(kani, verif_replay))]
+#[path = "/verif/kani/dedup.rs"]
+pub(crate) mod verif_kani_dedup;
